@@ -66,8 +66,10 @@ def rule_cropstrict(ctx, rule="C13.CROPSTRICT"):
     yield ob(rule, f, "util.adjust_intervals:keep-until", good, "rows are kept up to the first interval with start >= t_max (found: %s); `>` keeps a row that clipping turns into [t_max, t_max]" % tm.show(c, 4), node=hi[0].node)
     # the slices use the first selected index as lower / upper bound
     subs = [x for x in s.by_kind("subscript") if x.index.op == "slice" and "intervals" in tm.params_of(x.base)]
-    lows = [x for x in subs if not tm.is_const(x.index.a[0], None) and lo[0].term in list(tm.walk(x.index.a[0]))]
-    ups = [x for x in subs if not tm.is_const(x.index.a[1], None) and hi[0].term in list(tm.walk(x.index.a[1]))]
+    # (the bound is derived from the selection: the selecting call itself, or - after np.argwhere(m)[0, 0] has been read as
+    # np.where(m)[0][0] - the very mask it was applied to)
+    lows = [x for x in subs if not tm.is_const(x.index.a[0], None) and any(z is lo[0].term or z is lo[0].args[0] for z in tm.walk(x.index.a[0]))]
+    ups = [x for x in subs if not tm.is_const(x.index.a[1], None) and any(z is hi[0].term or z is hi[0].args[0] for z in tm.walk(x.index.a[1]))]
     yield ob(rule, f, "util.adjust_intervals:slices", bool(lows) and bool(ups), "kept rows are intervals[first_idx:] and intervals[:last_idx]")
     # ... whether or not labels were passed: the interval crop may not sit under a test on `labels`
     dep = [x for x in lows + ups if "labels" not in tm.params_of(x.base) and any("labels" in tm.params_of(c) for c, _ in symeval.pc_conds(x.pc))]
